@@ -698,5 +698,15 @@ def _install():
     PROPERTIES["C02"]["rules"].append(inv_orth_rule)
     PROPERTIES["C03"]["rules"].append(cov_at_rule)
 
+    from .ld_rules import inv_sign_rule, _renamed
+
+    def slp_sign_rule(ctx):
+        """SLP-SIGN = INV-SIGN (shared with C02): Flow.sample_and_log_prob returns the base log-prob minus the
+        log-abs-det of the transform's *inverse*, log_prob adds that of its *forward*; the two agree on a
+        sample only if every transform's inverse returns the negated log-abs-det of its forward."""
+        return _renamed(inv_sign_rule(ctx), {"INV-SIGN": "SLP-SIGN"})
+
+    PROPERTIES["C04"]["rules"].append(slp_sign_rule)
+
 
 _install()
